@@ -1,6 +1,7 @@
 (* Coherence (CoRR / CoWR / CoRW / CoWW) of ONE atomic cell over SEQUENCES of
-   operations by SEVERAL threads: a counterexample for loom's current
-   apply_load_coherence, and an invariant-based proof for a repaired variant.
+   operations by SEVERAL threads: an invariant-based proof for the model's
+   (repaired, loom fix c0421c4) apply_load_coherence, and counterexamples for
+   the rule as it was before that fix.
 
    MACHINE ([mstep tr], [mrun tr], [minit]).  State = (atomic_state, clocks :
    list vv).  Steps of thread t, exactly as Ops.v does them (own clock
@@ -16,31 +17,33 @@
    (atomic_new), n <= MAX_THREADS threads, all clocks equal to the creator's
    clock (spawned by it).  The constructors are called XLoad ... because
    Objects.v already has ALoad/AStore/ARmw.
-   The flag [tr] selects the load coherence: tr = false is the model's own
-   atomic_load / atomic_rmw ([atomic_load_g_false], [atomic_rmw_g_false], by
-   reflexivity); tr = true is the REPAIRED variant [alc_tr]: after
-   apply_load_coherence has raised the clock of the loaded store from mo_old to
-   mo_new, mo_new is also joined into every other store k with
-   vv_lt mo_old (st_mo k) (the raise is propagated to all mo-successors).
+   The flag [tr] selects the load coherence:
+   - tr = true: the MODEL's functions: [atomic_load_g_true],
+     [atomic_rmw_g_true] (atomic_load_g true = atomic_load, atomic_rmw_g true =
+     atomic_rmw, by reflexivity).  Every theorem below about "mstep true" is a
+     theorem about Atomic.atomic_load / atomic_rmw / atomic_store /
+     match_load_to_stores / match_rmw_to_stores.
+   - tr = false: the HISTORICAL rule [alc_before_fix], a verbatim copy of
+     apply_load_coherence before the fix (only the loaded store is raised).
 
-   FINDINGS about the current code (tr = false), all by vm_compute, the first
-   and the third also observed on the real loom in /repo:
-   - [coherence_counterexample] (CoWR FALSE, 2 threads, all Relaxed):
+   FINDINGS about the historical rule (tr = false), all by vm_compute; the
+   first and the fourth were also observed on the real loom before the fix:
+   - [coherence_counterexample_before_fix] (CoWR FALSE, 2 threads, Relaxed):
        T1: a.store(20); a.store(30); v = a.load();   T0: a.store(40); a.load();
-     T0's load may read 20 (it has not seen 30); that load joins mo(40) into
-     mo(20) IN PLACE, after which mo(20) and mo(30) are incomparable: the edge
-     20 <mo 30 is lost and T1 may read its own older store 20 (v = 20).
-     vv_lt between live stores is NOT stable under loads.
-   - [corr_counterexample]: the same with T2 reading 30 and then 20 (CoRR).
-   - [assert_ne_counterexample]: a run after which two live stores have EQUAL
-     clocks: match_load_to_stores / match_rmw_to_stores return None, i.e.
-     loom's assert_ne!(mo_i, mo_j) ("TODO: this sometimes fails") fires.
-   - [rmw_counterexample]: two RMWs read the same store (lost update:
-     T1: store 10. T2: store 20; fetch_add(1). T3: load 10; load 20;
+     T0's load may read 20 (it has not seen 30); that load joined mo(40) into
+     mo(20) IN PLACE, after which mo(20) and mo(30) were incomparable: the edge
+     20 <mo 30 was lost and T1 could read its own older store 20 (v = 20).
+   - [corr_counterexample_before_fix]: the same with T2 reading 30, then 20.
+   - [assert_ne_counterexample_before_fix]: a run after which two live stores
+     have EQUAL clocks: match_load_to_stores / match_rmw_to_stores return None,
+     i.e. loom's assert_ne!(mo_i, mo_j) ("TODO: this sometimes fails") fires.
+   - [rmw_counterexample_before_fix]: two RMWs read the same store (lost
+     update: T1: store 10. T2: store 20; fetch_add(1). T3: load 10; load 20;
      fetch_add(1) reads 20 again, final value 21).
-   [*_repaired] / last conjuncts: the repaired machine refuses these runs.
+   [coherence_counterexample_repaired] and the last conjuncts: the model's
+   functions refuse these runs.
 
-   PROVED for the repaired machine (tr = true), all closed:
+   PROVED for the model's functions (tr = true), all closed:
    - invariant [InvO own s cs] ([Inv] = exists own): ring shape, clocks bounded
      (no clock/mo/sync knows more about thread u than u itself), every live
      store a has an owner own a and a key hbk a = its thread's own component at
@@ -51,52 +54,59 @@
      [minit_inv], [mstep_inv] / [mstep_ext], [mrun_inv], [reach_inv].
      Consequences: [lt_iff_K] (vv_lt on live stores is exactly K),
      [live_mo_distinct].
+     [StampO] / [Inv2]: additionally every first-seen stamp st_seen[u] is
+     <= clock_u[u] and st_seen has MAX_THREADS entries ([mstep_inv2],
+     [mrun_inv2], [minit_inv2], [reach_inv2]).
    - [mlts_never_none]: along every run match_load_to_stores and
      match_rmw_to_stores never return None (assert_ne! never fires).
    - [step_stable] / [run_stable]: vv_lt between live stores, once true, stays
      true forever (the key lemma); [step_knows] / [run_knows]: "thread u has
      seen store i" (loom's is_seen_by_current, [knows]) is stable.
-   - [CoRR_CoWR]: if at some state t knows j (read it, wrote it, or an access
-     of it happens-before t: [store_knows], [sync_knows]) and i <mo j there,
-     then after ANY further steps of any threads XLoad i by t is refused;
-     [CoRR_CoWR_rmw]: an RMW never reads a store that ever was mo-before
-     another one.
-   - [CoWW_CoRW]: a new store is strictly mo-after every store its thread
-     knows; by [run_stable] for ever.
+   - how a thread comes to know a store: [load_knows] (its own load, needs the
+     stamp bound), [store_knows] (its own store), [sync_knows] (any
+     synchronisation edge u -> t carries u's knowledge to t).
+   - [CoRR_CoWR] (happens-before version): if at some state t knows j and
+     i <mo j there, then after ANY further steps of any threads XLoad i by t is
+     refused; [CoRR_CoWR_rmw]: an RMW never reads a store that ever was
+     mo-before another one.
+   - [CoWW_CoRW] (happens-before version): a new store is strictly mo-after
+     every store its thread knows; by [run_stable] for ever.
+   - same-thread versions without any [knows] hypothesis, arbitrary steps of
+     arbitrary threads in between: [CoRR_same_thread], [CoWR_same_thread],
+     [CoRW_same_thread], [CoWW_same_thread].
    - [search_repaired], [stale_read_example]: sanity search and non-vacuity.
-   A deeper search (3 threads, 5 steps after a 3-store prefix, all loads,
-   stores and RMWs) found no lost edge and no equal clocks.
 
-   NOT proved: (1) "after t LOADS i, t knows i" (needs a bound on the first-seen
-   stamps, st_seen[u] <= clock_u[u], which is not part of InvO; [knows] is
-   therefore a hypothesis of CoRR_CoWR / CoWW_CoRW, established here only by
-   own stores and synchronisation); (2) the RMW's own new store being
-   mo-after its source (same stamp bound); (3) ring wrap-around;
-   (4) RMW atomicity against LOADS: [rmw_gap_example] shows that the repaired
-   machine (and the current one) still lets loads order a store between an
-   RMW's source and the RMW's write (20 <mo 10 <mo 21 with 21 = fetch_add of
-   20): the propagation would also have to apply the RMW-atomicity closure of
+   NOT proved: (1) the RMW's own new store being mo-after its source (follows
+   the same way from the stamp bound; not done); (2) ring wrap-around;
+   (3) RMW atomicity against LOADS: [rmw_gap_example] shows that the model
+   still lets loads order a store between an RMW's source and the RMW's write
+   (20 <mo 10 <mo 21 with 21 = fetch_add of 20): the propagation of
+   apply_load_coherence would also have to apply the RMW-atomicity closure of
    atomic_store_from to every clock it raises. *)
 Require Import LV.Base LV.VV LV.VVFacts LV.Path LV.Prog LV.Objects LV.Atomic LV.AtomicFacts LV.AtomicCoherence.
 From Coq Require Import Lia.
 
 (* ------------------------------------------------------------------ *)
-(* 1. the repaired load coherence                                       *)
+(* 1. the two load-coherence rules                                      *)
 
-(* apply_load_coherence followed by the propagation of the raise to every
-   mo-successor of the loaded store (successors w.r.t. its OLD clock) *)
-Definition alc_tr (s : atomic_state) (caus : vv) (index : nat) : atomic_state :=
-  let mo_old := st_mo (get_store s index) in
-  let s1 := apply_load_coherence s caus index in
-  let mo_new := st_mo (get_store s1 index) in
-  at_set_stores s1
-    (mapi (fun k x => if negb (Nat.eqb k index) && vv_lt mo_old (st_mo x)
-                      then st_set_mo x (vv_join (st_mo x) mo_new) else x)
-          (at_stores s1))
-    (at_cnt s1).
+(* The HISTORICAL rule: apply_load_coherence as it was before fix c0421c4 (a
+   verbatim copy): only the loaded store is raised. *)
+Definition alc_before_fix (s : atomic_state) (caus : vv) (index : nat) : atomic_state :=
+  let mo :=
+    fold_left
+      (fun mo ix =>
+         let '(i, x) := ix in
+         if Nat.eqb index i then mo
+         else
+           let mo := if is_seen_by_current (st_seen x) caus then vv_join mo (st_mo x) else mo in
+           if vv_lt (st_hb x) caus then vv_join mo (st_mo x) else mo)
+      (index_list (at_stores s)) (st_mo (get_store s index)) in
+  at_set_stores s (list_upd (at_stores s) index (fun x => st_set_mo x mo)) (at_cnt s).
 
+(* tr = true: the model's (repaired) apply_load_coherence; tr = false: the
+   historical rule *)
 Definition alc_g (tr : bool) (s : atomic_state) (caus : vv) (index : nat) : atomic_state :=
-  if tr then alc_tr s caus index else apply_load_coherence s caus index.
+  if tr then apply_load_coherence s caus index else alc_before_fix s caus index.
 
 Definition loadpart_g (tr : bool) (s1 : atomic_state) (me : nat) (caus : vv) (index : nat)
   : atomic_state :=
@@ -140,13 +150,13 @@ Definition atomic_rmw_g (tr : bool) (s : atomic_state) (me : nat) (caus released
       end
   end.
 
-(* with tr = false these ARE the model's functions *)
-Lemma atomic_load_g_false : forall s me caus index o,
-  atomic_load_g false s me caus index o = atomic_load s me caus index o.
+(* with tr = true these ARE the model's functions *)
+Lemma atomic_load_g_true : forall s me caus index o,
+  atomic_load_g true s me caus index o = atomic_load s me caus index o.
 Proof. reflexivity. Qed.
 
-Lemma atomic_rmw_g_false : forall s me caus released index so fo f,
-  atomic_rmw_g false s me caus released index so fo f =
+Lemma atomic_rmw_g_true : forall s me caus released index so fo f,
+  atomic_rmw_g true s me caus released index so fo f =
   atomic_rmw s me caus released index so fo f.
 Proof. reflexivity. Qed.
 
@@ -511,11 +521,17 @@ Section InvFacts.
 End InvFacts.
 
 (* ================================================================== *)
-(* 5. the (repaired) load phase                                         *)
+(* 5. the load phase of the model's (repaired) apply_load_coherence      *)
 
 Lemma alc_eq : forall s c idx,
   apply_load_coherence s c idx =
-  at_set_stores s (list_upd (at_stores s) idx (fun x => st_set_mo x (alc_mo s c idx))) (at_cnt s).
+  at_set_stores s
+    (if vv_eqb (alc_mo s c idx) (st_mo (get_store s idx))
+     then list_upd (at_stores s) idx (fun x => st_set_mo x (alc_mo s c idx))
+     else mapi (fun i x => if negb (Nat.eqb idx i) && vv_lt (st_mo (get_store s idx)) (st_mo x)
+                           then st_set_mo x (vv_join (st_mo x) (alc_mo s c idx)) else x)
+               (list_upd (at_stores s) idx (fun x => st_set_mo x (alc_mo s c idx))))
+    (at_cnt s).
 Proof. reflexivity. Qed.
 
 Lemma loadpart_tr_get : forall s t c idx k,
@@ -524,44 +540,37 @@ Lemma loadpart_tr_get : forall s t c idx k,
     if Nat.eqb k idx
     then st_set_seen (st_set_mo (get_store s idx) (alc_mo s c idx))
                      (seen_touch (st_seen (get_store s idx)) t (vv_get c t))
+    else if vv_eqb (alc_mo s c idx) (mo s idx) then get_store s k
     else if vv_lt (mo s idx) (mo s k)
          then st_set_mo (get_store s k) (vv_join (mo s k) (alc_mo s c idx))
          else get_store s k.
 Proof.
   intros s t c idx k Hlen Hidx Hk.
-  unfold loadpart_g, alc_g, alc_tr. rewrite alc_eq.
-  set (M := alc_mo s c idx).
+  unfold loadpart_g, alc_g. rewrite alc_eq. cbv zeta. unfold mo.
+  set (M := alc_mo s c idx). set (B := st_mo (get_store s idx)).
   set (st2 := list_upd (at_stores s) idx (fun x => st_set_mo x M)).
   assert (Hl2 : length st2 = MAX_ATOMIC_HISTORY) by (unfold st2; rewrite list_upd_length; exact Hlen).
   assert (Hg2 : forall j, nth j st2 store_default =
                   if Nat.eqb j idx then st_set_mo (get_store s idx) M else get_store s j).
   { intros j. unfold st2. rewrite (@list_upd_nth astore (at_stores s) idx _ j store_default)
       by (rewrite Hlen; exact Hidx). reflexivity. }
-  cbn [at_stores at_set_stores at_cnt].
-  unfold get_store at 1. cbn [at_stores at_set_stores].
-  set (g := fun (k0 : nat) (x : astore) =>
-              if negb (Nat.eqb k0 idx) &&
-                 vv_lt (st_mo (get_store s idx))
-                       (st_mo x)
-              then st_set_mo x (vv_join (st_mo x)
-                     (st_mo (get_store (at_set_stores s st2 (at_cnt s)) idx)))
-              else x).
-  assert (Hl3 : length (mapi g st2) = MAX_ATOMIC_HISTORY).
-  { unfold mapi. rewrite mapi_from_length. exact Hl2. }
-  rewrite (@list_upd_nth astore (mapi g st2) idx _ k store_default) by (rewrite Hl3; exact Hidx).
-  assert (Hm : forall j, j < MAX_ATOMIC_HISTORY ->
-             nth j (mapi g st2) store_default = g j (nth j st2 store_default)).
-  { intros j Hj. unfold mapi. rewrite (@mapi_from_nth astore astore g st2 0 j store_default store_default)
-      by (rewrite Hl2; exact Hj). reflexivity. }
-  assert (HM : st_mo (get_store (at_set_stores s st2 (at_cnt s)) idx) = M).
-  { unfold get_store. cbn [at_stores at_set_stores]. rewrite Hg2. rewrite Nat.eqb_refl. reflexivity. }
-  destruct (Nat.eqb_spec k idx) as [Heq|Hne].
-  - subst k. rewrite (Hm idx Hidx). rewrite Hg2. rewrite Nat.eqb_refl.
-    unfold g. rewrite Nat.eqb_refl. cbn [negb andb]. reflexivity.
-  - rewrite (Hm k Hk). rewrite Hg2.
-    destruct (Nat.eqb_spec k idx) as [Heq|_]; [contradiction|].
-    unfold g. destruct (Nat.eqb_spec k idx) as [Heq|_]; [contradiction|]. cbn [negb andb].
-    rewrite HM. unfold mo. reflexivity.
+  unfold get_store at 1. cbn [at_stores at_set_stores at_cnt].
+  destruct (vv_eqb M B) eqn:He.
+  - rewrite (@list_upd_nth astore st2 idx _ k store_default) by (rewrite Hl2; exact Hidx).
+    rewrite !Hg2. rewrite Nat.eqb_refl. destruct (Nat.eqb k idx); reflexivity.
+  - match goal with |- context [mapi ?g st2] => set (G := g) end.
+    assert (Hl3 : length (mapi G st2) = MAX_ATOMIC_HISTORY).
+    { unfold mapi. rewrite mapi_from_length. exact Hl2. }
+    rewrite (@list_upd_nth astore (mapi G st2) idx _ k store_default) by (rewrite Hl3; exact Hidx).
+    assert (Hm : forall j, j < MAX_ATOMIC_HISTORY ->
+               nth j (mapi G st2) store_default = G j (nth j st2 store_default)).
+    { intros j Hj. unfold mapi.
+      rewrite (@mapi_from_nth astore astore G st2 0 j store_default store_default)
+        by (rewrite Hl2; exact Hj). reflexivity. }
+    rewrite (Hm idx Hidx), (Hm k Hk), !Hg2, Nat.eqb_refl.
+    destruct (Nat.eqb_spec k idx) as [Heq|Hne].
+    + subst k. unfold G. rewrite Nat.eqb_refl. cbn [negb andb]. reflexivity.
+    + unfold G. destruct (Nat.eqb_spec idx k) as [Heq|_]; [lia|]. cbn [negb andb]. reflexivity.
 Qed.
 
 Lemma loadpart_tr_frame : forall s t c idx,
@@ -571,9 +580,10 @@ Lemma loadpart_tr_frame : forall s t c idx,
   length (at_stores s') = length (at_stores s).
 Proof.
   intros s t c idx. cbv zeta. repeat split.
-  unfold loadpart_g, alc_g, alc_tr. cbn [at_stores at_set_stores].
-  rewrite list_upd_length. unfold mapi. rewrite mapi_from_length.
-  rewrite alc_eq. cbn [at_stores at_set_stores]. apply list_upd_length.
+  unfold loadpart_g, alc_g. rewrite alc_eq. cbv zeta. cbn [at_stores at_set_stores].
+  rewrite list_upd_length.
+  destruct (vv_eqb (alc_mo s c idx) (st_mo (get_store s idx)));
+    [|unfold mapi; rewrite mapi_from_length]; apply list_upd_length.
 Qed.
 
 (* the vectors joined into the loaded store: clocks of OTHER stores the
@@ -629,6 +639,7 @@ Section LoadPhase.
       if Nat.eqb k idx
       then st_set_seen (st_set_mo (get_store s idx) M)
                        (seen_touch (st_seen (get_store s idx)) t (vv_get c t))
+      else if vv_eqb M (mo s idx) then get_store s k
       else if vv_lt (mo s idx) (mo s k)
            then st_set_mo (get_store s k) (vv_join (mo s k) M)
            else get_store s k.
@@ -638,11 +649,20 @@ Section LoadPhase.
 
   Lemma lp_mo : forall k, k < MAX_ATOMIC_HISTORY ->
     mo s' k = if Nat.eqb k idx then M
+              else if vv_eqb M (mo s idx) then mo s k
               else if vv_lt (mo s idx) (mo s k) then vv_join (mo s k) M else mo s k.
   Proof.
     intros k Hk. unfold mo at 1. rewrite (lp_get Hk).
     destruct (Nat.eqb k idx); [reflexivity|].
+    destruct (vv_eqb M (mo s idx)); [reflexivity|].
     destruct (vv_lt (mo s idx) (mo s k)); reflexivity.
+  Qed.
+
+  Lemma lp_eqb_le : forall k, vv_eqb M (mo s idx) = true ->
+    vv_lt (mo s idx) (mo s k) = true -> vle M (mo s k).
+  Proof.
+    intros k He Hlt. rewrite vv_eqb_spec in He. apply vv_lt_spec in Hlt. destruct Hlt as [Hle _].
+    intros q. rewrite (He q). apply Hle.
   Qed.
 
   Lemma lp_hb : forall k, k < MAX_ATOMIC_HISTORY ->
@@ -650,6 +670,7 @@ Section LoadPhase.
   Proof.
     intros k Hk. rewrite (lp_get Hk).
     destruct (Nat.eqb_spec k idx) as [Heq|_]; [subst k; reflexivity|].
+    destruct (vv_eqb M (mo s idx)); [reflexivity|].
     destruct (vv_lt (mo s idx) (mo s k)); reflexivity.
   Qed.
 
@@ -658,6 +679,7 @@ Section LoadPhase.
   Proof.
     intros k Hk. rewrite (lp_get Hk).
     destruct (Nat.eqb_spec k idx) as [Heq|_]; [subst k; reflexivity|].
+    destruct (vv_eqb M (mo s idx)); [reflexivity|].
     destruct (vv_lt (mo s idx) (mo s k)); reflexivity.
   Qed.
 
@@ -668,6 +690,7 @@ Section LoadPhase.
   Proof.
     intros k Hk. rewrite (lp_get Hk).
     destruct (Nat.eqb_spec k idx) as [Heq|_]; [reflexivity|].
+    destruct (vv_eqb M (mo s idx)); [reflexivity|].
     destruct (vv_lt (mo s idx) (mo s k)); reflexivity.
   Qed.
 
@@ -681,20 +704,24 @@ Section LoadPhase.
   Proof.
     intros k Hk. rewrite (lp_mo Hk). destruct (Nat.eqb_spec k idx) as [Heq|_].
     - subst k. apply lp_jn.
-    - destruct (vv_lt (mo s idx) (mo s k)); [apply vle_join_l | apply vle_refl].
+    - destruct (vv_eqb M (mo s idx)); [apply vle_refl|].
+      destruct (vv_lt (mo s idx) (mo s k)); [apply vle_join_l | apply vle_refl].
   Qed.
 
   Lemma lp_C_M : forall k, k < MAX_ATOMIC_HISTORY -> C k -> vle M (mo s' k).
   Proof.
     intros k Hk HC. rewrite (lp_mo Hk). destruct (Nat.eqb_spec k idx) as [Heq|Hne]; [apply vle_refl|].
-    destruct HC as [Heq|Hlt]; [contradiction|]. rewrite Hlt. apply vle_join_r.
+    destruct HC as [Heq|Hlt]; [contradiction|].
+    destruct (vv_eqb M (mo s idx)) eqn:He; [apply (lp_eqb_le k He Hlt)|].
+    rewrite Hlt. apply vle_join_r.
   Qed.
 
   Lemma lp_notC : forall k, k < MAX_ATOMIC_HISTORY -> ~ C k -> mo s' k = mo s k.
   Proof.
     intros k Hk HC. rewrite (lp_mo Hk). destruct (Nat.eqb_spec k idx) as [Heq|Hne].
     - exfalso. apply HC. left. exact Heq.
-    - destruct (vv_lt (mo s idx) (mo s k)) eqn:Hlt; [|reflexivity].
+    - destruct (vv_eqb M (mo s idx)); [reflexivity|].
+      destruct (vv_lt (mo s idx) (mo s k)) eqn:Hlt; [|reflexivity].
       exfalso. apply HC. right. exact Hlt.
   Qed.
 
@@ -758,7 +785,8 @@ Section LoadPhase.
     destruct (Nat.eqb_spec b idx) as [Heq|Hne].
     - subst b. destruct (HfromM HK) as [H1|H2]; [left; exact H1|].
       right. split; [left; reflexivity | exact H2].
-    - destruct (vv_lt (mo s idx) (mo s b)) eqn:Hlt; [|left; exact HK].
+    - destruct (vv_eqb M (mo s idx)); [left; exact HK|].
+      destruct (vv_lt (mo s idx) (mo s b)) eqn:Hlt; [|left; exact HK].
       rewrite vv_get_join in HK.
       destruct (Nat.le_gt_cases (hbk own s a) (vv_get (mo s b) (own a))) as [H1|H1]; [left; exact H1|].
       assert (HM : hbk own s a <= vv_get M (own a)) by lia.
@@ -785,6 +813,7 @@ Section LoadPhase.
       pose proof (lp_grow (lp_live7 Hb)) as Hgb.
       rewrite (lp_mo (lp_live7 Ha)).
       destruct (Nat.eqb_spec a idx) as [Heq|Hne]; [exact HMb|].
+      destruct (vv_eqb M (mo s idx)); [eapply vle_trans; eassumption|].
       destruct (vv_lt (mo s idx) (mo s a)).
       + apply vle_join_lub; [eapply vle_trans; eassumption | exact HMb].
       + eapply vle_trans; eassumption.
@@ -807,6 +836,7 @@ Section LoadPhase.
     - intros a Ha. rewrite Fc in Ha.
       destruct (Nat.lt_ge_cases a MAX_ATOMIC_HISTORY) as [H7|H7].
       + rewrite (lp_get H7). destruct (Nat.eqb_spec a idx) as [Heq|_]; [lia|].
+        destruct (vv_eqb M (mo s idx)); [apply (i_dead HI Ha)|].
         unfold mo at 2. rewrite (i_dead HI Ha). cbn [st_mo store_default].
         rewrite vv_lt_new_false. reflexivity.
       + unfold get_store. apply nth_overflow. rewrite Fl, (i_len HI). exact H7.
@@ -828,6 +858,7 @@ Section LoadPhase.
           + subst g. apply (i_bmo HI Hx Hu). }
       rewrite (lp_mo (lp_live7 Ha)). destruct (Nat.eqb a idx); [exact HMu|].
       pose proof (i_bmo HI Ha Hu) as Hb.
+      destruct (vv_eqb M (mo s idx)); [exact Hb|].
       destruct (vv_lt (mo s idx) (mo s a)); [rewrite vv_get_join; lia | exact Hb].
     - intros a u Ha Hu. rewrite Fc in Ha. rewrite (lp_sync (lp_live7 Ha)). apply (i_bsync HI Ha Hu).
     - apply (i_bclk HI).
@@ -1280,10 +1311,123 @@ Proof.
   destruct (Nat.eqb_spec u t) as [Heq|_]; [subst u; exact Hle | apply vle_refl].
 Qed.
 
+(* ---- the first-seen stamps: st_seen[u] <= clock_u[u] ---- *)
+Record StampO (s : atomic_state) (cs : list vv) : Prop := mkStampO {
+  sb_le : forall a u w, a < at_cnt s ->
+     nth_error (st_seen (get_store s a)) u = Some (Some w) -> w <= vv_get (clk cs u) u;
+  sb_len : forall a, a < at_cnt s -> length (st_seen (get_store s a)) = MAX_THREADS
+}.
+
+Lemma list_set_nth_error_other : forall (A : Type) (l : list A) n j x,
+  n <> j -> nth_error (list_set l n x) j = nth_error l j.
+Proof.
+  intros A. induction l as [|h r IH]; intros n j x Hne; [reflexivity|].
+  destruct n as [|n]; destruct j as [|j]; cbn [list_set nth_error]; try lia; try reflexivity.
+  apply IH. lia.
+Qed.
+
+Lemma seen_touch_length : forall seen me w, length (seen_touch seen me w) = length seen.
+Proof.
+  intros seen me w. unfold seen_touch.
+  destruct (nth_error seen me) as [[x|]|]; try reflexivity. apply list_set_length.
+Qed.
+
+Lemma seen_touch_inv : forall seen me w u x,
+  nth_error (seen_touch seen me w) u = Some (Some x) ->
+  nth_error seen u = Some (Some x) \/ (u = me /\ x = w).
+Proof.
+  intros seen me w u x H. unfold seen_touch in H.
+  destruct (nth_error seen me) as [[y|]|] eqn:Hme; try (left; exact H).
+  destruct (Nat.eq_dec me u) as [Heq|Hne].
+  - subst u. right. split; [reflexivity|].
+    assert (Hlt : me < length seen) by (apply nth_error_Some; rewrite Hme; discriminate).
+    rewrite (list_set_nth_error_same seen (Some w) Hlt) in H. inversion H. reflexivity.
+  - left. rewrite list_set_nth_error_other in H by exact Hne. exact H.
+Qed.
+
+Lemma seen_touch_hit : forall seen me w, me < length seen ->
+  exists x, nth_error (seen_touch seen me w) me = Some (Some x) /\
+            (x = w \/ nth_error seen me = Some (Some x)).
+Proof.
+  intros seen me w Hlt. unfold seen_touch.
+  destruct (nth_error seen me) as [[y|]|] eqn:Hme.
+  - exists y. split; [exact Hme | right; reflexivity].
+  - exists w. split; [apply list_set_nth_error_same; exact Hlt | left; reflexivity].
+  - exfalso. apply nth_error_None in Hme. lia.
+Qed.
+
+Lemma stamp_clock : forall s cs cs',
+  StampO s cs -> (forall u, vle (clk cs u) (clk cs' u)) -> StampO s cs'.
+Proof.
+  intros s cs cs' [Hb Hl] Hg. constructor; [|exact Hl].
+  intros a u w Ha Hn. pose proof (Hb a u w Ha Hn). pose proof (Hg u u). lia.
+Qed.
+
+Lemma stamp_load : forall own s cs0 cs cs' t c idx,
+  InvO own s cs0 -> idx < at_cnt s -> StampO s cs ->
+  (forall u, vle (clk cs u) (clk cs' u)) -> vv_get c t <= vv_get (clk cs' t) t ->
+  StampO (loadpart_g true s t c idx) cs'.
+Proof.
+  intros own s cs0 cs cs' t c idx HI Hidx HS Hg Hc.
+  pose proof (@stamp_clock s cs cs' HS Hg) as [Hb Hl].
+  assert (H7 : forall a, a < at_cnt s -> a < MAX_ATOMIC_HISTORY) by (intros a Ha; pose proof (i_cnt7 HI); lia).
+  constructor.
+  - intros a u w Ha Hn. change (a < at_cnt s) in Ha.
+    rewrite (@lp_seen own s cs0 t c idx HI Hidx a (H7 a Ha)) in Hn.
+    destruct (Nat.eqb_spec a idx) as [Heq|_]; [|apply (Hb a u w Ha Hn)].
+    subst a. apply seen_touch_inv in Hn. destruct Hn as [Hn|[Hu Hw]]; [apply (Hb idx u w Ha Hn)|].
+    subst u w. exact Hc.
+  - intros a Ha. change (a < at_cnt s) in Ha.
+    rewrite (@lp_seen own s cs0 t c idx HI Hidx a (H7 a Ha)).
+    destruct (Nat.eqb_spec a idx) as [Heq|_]; [|apply (Hl a Ha)].
+    subst a. rewrite seen_touch_length. apply (Hl idx Ha).
+Qed.
+
+Lemma seen_new_nth : forall u, nth_error seen_new u <> Some (Some 0) /\
+  forall x, nth_error seen_new u = Some (Some x) -> False.
+Proof.
+  intros u. assert (H : forall x, nth_error seen_new u = Some (Some x) -> False).
+  { intros x Hn. apply nth_error_In in Hn. unfold seen_new in Hn. apply repeat_spec in Hn. discriminate. }
+  split; [intros Hn; apply (H 0 Hn) | exact H].
+Qed.
+
+Lemma stamp_store : forall own s cs0 cs cs' t c sync0 v o src,
+  InvO own s cs0 -> at_cnt s < MAX_ATOMIC_HISTORY -> StampO s cs ->
+  (forall u, vle (clk cs u) (clk cs' u)) -> vv_get c t <= vv_get (clk cs' t) t ->
+  StampO (atomic_store_from s t c vv_new sync0 v o src) cs'.
+Proof.
+  intros own s cs0 cs cs' t c sync0 v o src HI Hroom HS Hg Hc.
+  pose proof (@stamp_clock s cs cs' HS Hg) as [Hb Hl].
+  assert (Hget : forall a, get_store (atomic_store_from s t c vv_new sync0 v o src) a =
+            if Nat.eqb a (at_cnt s)
+            then mkStore v c (store_from_mo s c src) (sync_store sync0 c vv_new o)
+                         (seen_touch seen_new t (vv_get c t)) (is_seq_cst o) (at_cnt s) src
+            else get_store s a).
+  { intros a. unfold atomic_store_from. cbv zeta. rewrite (aindex_small Hroom).
+    apply (get_store_set s _ (S (at_cnt s)) a). rewrite (i_len HI). exact Hroom. }
+  constructor.
+  - intros a u w Ha Hn. change (a < S (at_cnt s)) in Ha. rewrite Hget in Hn.
+    destruct (Nat.eqb_spec a (at_cnt s)) as [Heq|Hne].
+    + cbn [st_seen] in Hn. apply seen_touch_inv in Hn. destruct Hn as [Hn|[Hu Hw]].
+      * exfalso. apply (proj2 (seen_new_nth u) w Hn).
+      * subst u w. exact Hc.
+    + apply (Hb a u w); [lia | exact Hn].
+  - intros a Ha. change (a < S (at_cnt s)) in Ha. rewrite Hget.
+    destruct (Nat.eqb_spec a (at_cnt s)) as [Heq|Hne].
+    + cbn [st_seen]. rewrite seen_touch_length. unfold seen_new. apply repeat_length.
+    + apply Hl. lia.
+Qed.
+
+Lemma stamp_tl : forall s cs c, StampO s cs -> StampO (tl_state s c) cs.
+Proof. intros s cs c [Hb Hl]. constructor; [exact Hb | exact Hl]. Qed.
+Lemma stamp_ts : forall s cs c, StampO s cs -> StampO (ts_state s c) cs.
+Proof. intros s cs c [Hb Hl]. constructor; [exact Hb | exact Hl]. Qed.
+
 Theorem mstep_ext : forall own s cs t op s' cs',
   InvO own s cs -> mstep true (s, cs) t op = Some (s', cs') ->
   exists own', InvO own' s' cs' /\ ext own s own' s' /\
-               length cs' = length cs /\ forall u, vle (clk cs u) (clk cs' u).
+               length cs' = length cs /\ (forall u, vle (clk cs u) (clk cs' u)) /\
+               (StampO s cs -> StampO s' cs').
 Proof.
   intros own s cs t op s' cs' HI Hstep.
   unfold mstep in Hstep.
@@ -1310,7 +1454,9 @@ Proof.
     destruct (acq_clock o HI3 Ht Hidx3) as [H1 [_ [H3 H4]]].
     split; [apply (InvO_clock HI3 Ht H1 H3 H4)|].
     split; [apply (@load_phase_ext own (tl_state s c) cs t c idx (InvO_tl c HI) Hidx)|].
-    split; [apply list_set_length | apply (@clk_set_grow cs t _ Ht H1)].
+    split; [apply list_set_length|]. split; [apply (@clk_set_grow cs t _ Ht H1)|].
+    intros HS. apply (@stamp_load own (tl_state s c) cs cs _ t c idx (InvO_tl c HI) Hidx (stamp_tl c HS) (@clk_set_grow cs t _ Ht H1)).
+    rewrite (clk_set cs t _ t Ht), Nat.eqb_refl. apply (sync_load_ge c _ o t).
   - (* store *)
     destruct (Nat.leb_spec MAX_ATOMIC_HISTORY (at_cnt s)) as [Hfull|Hroom]; [discriminate|].
     set (c := vv_inc (clk cs t) t) in *.
@@ -1322,7 +1468,9 @@ Proof.
                (sf_le cs t) (sf_fr HI Ht) (sf_len HI Ht) (sf_oth HI Ht)).
       intros u Hu. rewrite vv_new_get. lia. }
     split; [apply (@store_phase_ext own (ts_state s c) cs t c vv_new v o None (InvO_ts c HI) Hroom)|].
-    split; [apply list_set_length | apply (@clk_set_grow cs t _ Ht (sf_le cs t))].
+    split; [apply list_set_length|]. split; [apply (@clk_set_grow cs t _ Ht (sf_le cs t))|].
+    intros HS. apply (@stamp_store own (ts_state s c) cs cs _ t c vv_new v o None (InvO_ts c HI) Hroom (stamp_ts c HS) (@clk_set_grow cs t _ Ht (sf_le cs t))).
+    rewrite (clk_set cs t _ t Ht), Nat.eqb_refl. apply le_n.
   - (* rmw *)
     destruct (Nat.leb_spec MAX_ATOMIC_HISTORY (at_cnt s)) as [Hfull|Hroom]; [discriminate|].
     set (c := vv_inc (clk cs t) t) in *.
@@ -1354,13 +1502,21 @@ Proof.
       split.
       { eapply ext_trans; [exact Hext3|].
         apply (@store_phase_ext own (ts_state s3 c) cs t _ _ next so _ (InvO_ts c HI3) Hroom). }
-      split; [apply list_set_length | apply (@clk_set_grow cs t _ Ht H1)].
+      split; [apply list_set_length|]. split; [apply (@clk_set_grow cs t _ Ht H1)|].
+      intros HS.
+      match goal with |- StampO _ ?X => assert (HS3 : StampO s3 X) end.
+      { apply (@stamp_load own (tl_state s c) cs cs _ t c idx (InvO_tl c HI) Hidx (stamp_tl c HS) (@clk_set_grow cs t _ Ht H1)).
+        rewrite (clk_set cs t _ t Ht), Nat.eqb_refl. apply (sync_load_ge c _ so t). }
+      apply (@stamp_store own (ts_state s3 c) cs _ _ t _ _ next so _ (InvO_ts c HI3) Hroom (stamp_ts c HS3) (fun u0 => vle_refl _)).
+      rewrite (clk_set cs t _ t Ht), Nat.eqb_refl. apply le_n.
     + inversion Hstep as [[Hs' Hcs']]. clear Hstep. subst s' cs'.
       exists own.
       destruct (acq_clock fo HI3 Ht Hidx3) as [H1 [_ [H3 H4]]].
       split; [apply (InvO_clock HI3 Ht H1 H3 H4)|].
       split; [exact Hext3|].
-      split; [apply list_set_length | apply (@clk_set_grow cs t _ Ht H1)].
+      split; [apply list_set_length|]. split; [apply (@clk_set_grow cs t _ Ht H1)|].
+      intros HS. apply (@stamp_load own (tl_state s c) cs cs _ t c idx (InvO_tl c HI) Hidx (stamp_tl c HS) (@clk_set_grow cs t _ Ht H1)).
+      rewrite (clk_set cs t _ t Ht), Nat.eqb_refl. apply (sync_load_ge c _ fo t).
   - (* sync *)
     destruct (Nat.ltb_spec u (length cs)) as [Hu|Hu]; [|discriminate].
     inversion Hstep as [[Hs' Hcs']]. clear Hstep. subst s' cs'.
@@ -1371,7 +1527,8 @@ Proof.
       + intros w Hw Hne. rewrite vv_get_join.
         pose proof (i_bclk HI Ht Hw). pose proof (i_bclk HI Hu Hw). lia. }
     split; [apply ext_refl|].
-    split; [apply list_set_length | apply (@clk_set_grow cs t _ Ht (vle_join_l _ _))].
+    split; [apply list_set_length|]. split; [apply (@clk_set_grow cs t _ Ht (vle_join_l _ _))|].
+    intros HS. apply (@stamp_clock s cs _ HS (@clk_set_grow cs t _ Ht (vle_join_l _ _))).
 Qed.
 
 Theorem mstep_inv : forall st t op st',
@@ -1451,7 +1608,8 @@ Proof.
 Qed.
 
 (* ================================================================== *)
-(* 10. theorems on the runs of the REPAIRED machine                     *)
+(* 10. theorems on the runs of the machine built from the MODEL's
+       functions (tr = true)                                            *)
 
 Definition lives (st : mstate) (a : nat) : Prop := a < at_cnt (fst st).
 (* loom's own notion: thread t has seen store i (it read or wrote it, or an
@@ -1508,7 +1666,7 @@ Theorem step_knows : forall st t op st' u i,
 Proof.
   intros [s cs] t op [s' cs'] u i [own HI] Hstep Hi Hk.
   unfold lives, knows in *. cbn [fst snd] in *.
-  destruct (mstep_ext _ _ HI Hstep) as [own' [_ [[_ Hx] [_ Hg]]]].
+  destruct (mstep_ext _ _ HI Hstep) as [own' [_ [[_ Hx] [_ [Hg _]]]]].
   destruct (Hx i Hi) as [_ [_ [_ Hs]]].
   apply (seen_clock_mono _ _ _ (Hg u)). apply Hs. exact Hk.
 Qed.
@@ -1607,15 +1765,18 @@ Qed.
 
 (* how a thread comes to know a store: its own store ... *)
 Theorem store_knows : forall st t v o st',
-  Inv st -> mstep true st t (XStore v o) = Some st' -> knows st' t (at_cnt (fst st)).
+  Inv st -> mstep true st t (XStore v o) = Some st' ->
+  lives st' (at_cnt (fst st)) /\ knows st' t (at_cnt (fst st)).
 Proof.
-  intros [s cs] t v o st' [own HI] Hstep. unfold knows. cbn [fst snd] in *.
+  intros [s cs] t v o st' [own HI] Hstep. unfold lives, knows. cbn [fst snd] in *.
   unfold mstep in Hstep.
   destruct (Nat.ltb_spec t (length cs)) as [Ht|Ht]; cbn [negb] in Hstep; [|discriminate].
   destruct (Nat.leb_spec MAX_ATOMIC_HISTORY (at_cnt s)) as [Hfull|Hroom]; [discriminate|].
   set (c := vv_inc (clk cs t) t) in *.
   rewrite (track_store_ok' HI Ht (sf_le cs t : vle (clk cs t) c)) in Hstep.
-  inversion Hstep as [Hst]. clear Hstep Hst. cbn [fst snd]. unfold atomic_store, atomic_store_from.
+  inversion Hstep as [Hst]. clear Hstep Hst. cbn [fst snd].
+  split; [change (at_cnt s < S (at_cnt s)); lia|].
+  unfold atomic_store, atomic_store_from.
   cbv zeta. rewrite (aindex_small (Hroom : at_cnt (ts_state s c) < MAX_ATOMIC_HISTORY)).
   rewrite get_store_set by (change (at_stores (ts_state s c)) with (at_stores s); rewrite (i_len HI); exact Hroom).
   change (at_cnt (ts_state s c)) with (at_cnt s). rewrite Nat.eqb_refl. cbn [st_seen].
@@ -1637,9 +1798,134 @@ Proof.
   apply (seen_clock_mono _ _ _ (vle_join_r (clk cs t) (clk cs u)) Hk).
 Qed.
 
+(* ---- with the stamp bound st_seen[u] <= clock_u[u]: a load makes the loaded
+   store known, so the same-thread versions need no [knows] hypothesis ---- *)
+Definition Inv2 (st : mstate) : Prop := Inv st /\ StampO (fst st) (snd st).
+
+Theorem mstep_inv2 : forall st t op st',
+  Inv2 st -> mstep true st t op = Some st' -> Inv2 st'.
+Proof.
+  intros [s cs] t op [s' cs'] [[own HI] HS] Hstep. cbn [fst snd] in *.
+  destruct (mstep_ext _ _ HI Hstep) as [own' [HI' [_ [_ [_ HS']]]]].
+  split; [exists own'; exact HI' | exact (HS' HS)].
+Qed.
+
+Theorem mrun_inv2 : forall evs st st',
+  Inv2 st -> mrun true st evs = Some st' -> Inv2 st'.
+Proof.
+  induction evs as [|[t op] evs IH]; intros st st' HI Hrun.
+  - cbn [mrun] in Hrun. inversion Hrun. subst st'. exact HI.
+  - cbn [mrun] in Hrun. destruct (mstep true st t op) as [st1|] eqn:Hs; [|discriminate].
+    apply (IH st1 st' (@mstep_inv2 st t op st1 HI Hs) Hrun).
+Qed.
+
+Theorem minit_inv2 : forall n v0 st,
+  1 <= n -> n <= MAX_THREADS -> minit n v0 = Some st -> Inv2 st.
+Proof.
+  intros n v0 st Hn1 Hn5 Hm. split; [apply (@minit_inv n v0 st Hn1 Hn5 Hm)|].
+  rewrite minit_eq in Hm. inversion Hm as [Hst]. clear Hm Hst. cbn [fst snd].
+  constructor.
+  - intros a u w Ha Hn. cbn in Ha. assert (a = 0) by lia. subst a.
+    destruct u as [|[|[|[|[|u]]]]]; cbn in Hn; try discriminate.
+    + inversion Hn. subst w. rewrite clk_repeat by lia. cbn. lia.
+    + destruct u; discriminate.
+  - intros a Ha. cbn in Ha. assert (a = 0) by lia. subst a. reflexivity.
+Qed.
+
+Theorem reach_inv2 : forall st, reach st -> Inv2 st.
+Proof.
+  intros st [n [v0 [st0 [evs [H1 [H5 [Hi Hr]]]]]]].
+  apply (@mrun_inv2 evs st0 st (@minit_inv2 n v0 st0 H1 H5 Hi) Hr).
+Qed.
+
+Theorem load_knows : forall st t i o st',
+  Inv2 st -> mstep true st t (XLoad i o) = Some st' -> lives st' i /\ knows st' t i.
+Proof.
+  intros [s cs] t i o st' [[own HI] HS] Hstep. unfold lives, knows. cbn [fst snd] in *.
+  unfold mstep in Hstep.
+  destruct (Nat.ltb_spec t (length cs)) as [Ht|Ht]; cbn [negb] in Hstep; [|discriminate].
+  set (c := vv_inc (clk cs t) t) in *.
+  destruct (match_load_to_stores s t c None o) as [l|] eqn:Hm; [|discriminate].
+  destruct (existsb (Nat.eqb i) l) eqn:He; [|discriminate].
+  apply existsb_eqb_In in He. apply (load_candidates_spec _ _ _ _ _ _ Hm i) in He.
+  destruct He as [H7 [Hidx _]].
+  unfold atomic_load_g in Hstep.
+  rewrite (track_load_ok' HI Ht (sf_le cs t : vle (clk cs t) c)) in Hstep. cbv zeta in Hstep.
+  inversion Hstep as [Hst]. clear Hstep Hst. cbn [fst snd].
+  split; [exact Hidx|].
+  rewrite (@lp_seen own (tl_state s c) cs t c i (InvO_tl c HI) Hidx i H7). rewrite Nat.eqb_refl.
+  change (get_store (tl_state s c) i) with (get_store s i).
+  destruct HS as [Hb Hl].
+  assert (Htl : t < length (st_seen (get_store s i))).
+  { rewrite (Hl i Hidx). pose proof (i_nthr HI). lia. }
+  destruct (@seen_touch_hit (st_seen (get_store s i)) t (vv_get c t) Htl) as [x [Hn Hx]].
+  eapply (@is_seen_by_current_hit _ t); [exact Hn|].
+  rewrite (clk_set cs t _ t Ht), Nat.eqb_refl.
+  eapply Nat.le_trans; [|apply (sync_load_ge c _ o t)].
+  destruct Hx as [Hx|Hx]; [subst x; apply le_n|].
+  pose proof (Hb i t x Hidx Hx) as Hw. pose proof (sf_fr HI Ht) as Hf. fold c in Hf. lia.
+Qed.
+
+(* CoRR, one thread's own two reads, any steps of any threads in between *)
+Theorem CoRR_same_thread : forall st0 t j o st1 evs st2 i o',
+  Inv2 st0 -> mstep true st0 t (XLoad j o) = Some st1 ->
+  lives st1 i -> mo_lt st1 i j = true ->
+  mrun true st1 evs = Some st2 ->
+  mstep true st2 t (XLoad i o') = None.
+Proof.
+  intros st0 t j o st1 evs st2 i o' HI Hs Hi Hlt Hrun.
+  destruct (@load_knows st0 t j o st1 HI Hs) as [Hj Hk].
+  destruct (@mstep_inv2 st0 t (XLoad j o) st1 HI Hs) as [HI1 _].
+  apply (@CoRR_CoWR st1 evs st2 t i j o' HI1 Hi Hj Hk Hlt Hrun).
+Qed.
+
+(* CoWR: a thread never reads a store that was mo-before its own earlier store *)
+Theorem CoWR_same_thread : forall st0 t v o st1 evs st2 i o',
+  Inv st0 -> mstep true st0 t (XStore v o) = Some st1 ->
+  lives st1 i -> mo_lt st1 i (at_cnt (fst st0)) = true ->
+  mrun true st1 evs = Some st2 ->
+  mstep true st2 t (XLoad i o') = None.
+Proof.
+  intros st0 t v o st1 evs st2 i o' HI Hs Hi Hlt Hrun.
+  destruct (@store_knows st0 t v o st1 HI Hs) as [Hj Hk].
+  pose proof (@mstep_inv st0 t (XStore v o) st1 HI Hs) as HI1.
+  apply (@CoRR_CoWR st1 evs st2 t i (at_cnt (fst st0)) o' HI1 Hi Hj Hk Hlt Hrun).
+Qed.
+
+(* CoRW: a thread's store is mo-after every store it has read before *)
+Theorem CoRW_same_thread : forall st0 t j o st1 evs st2 v o' st3,
+  Inv2 st0 -> mstep true st0 t (XLoad j o) = Some st1 ->
+  mrun true st1 evs = Some st2 ->
+  mstep true st2 t (XStore v o') = Some st3 ->
+  mo_lt st3 j (at_cnt (fst st2)) = true.
+Proof.
+  intros st0 t j o st1 evs st2 v o' st3 HI Hs Hrun Hs3.
+  destruct (@load_knows st0 t j o st1 HI Hs) as [Hj Hk].
+  destruct (@mstep_inv2 st0 t (XLoad j o) st1 HI Hs) as [HI1 _].
+  destruct (@run_knows evs st1 st2 t j HI1 Hrun Hj Hk) as [Hj2 Hk2].
+  pose proof (@mrun_inv evs st1 st2 HI1 Hrun) as HI2.
+  apply (@CoWW_CoRW st2 t v o' st3 j HI2 Hj2 Hk2 Hs3).
+Qed.
+
+(* CoWW: a thread's later store is mo-after its earlier store *)
+Theorem CoWW_same_thread : forall st0 t v o st1 evs st2 v' o' st3,
+  Inv st0 -> mstep true st0 t (XStore v o) = Some st1 ->
+  mrun true st1 evs = Some st2 ->
+  mstep true st2 t (XStore v' o') = Some st3 ->
+  mo_lt st3 (at_cnt (fst st0)) (at_cnt (fst st2)) = true.
+Proof.
+  intros st0 t v o st1 evs st2 v' o' st3 HI Hs Hrun Hs3.
+  destruct (@store_knows st0 t v o st1 HI Hs) as [Hj Hk].
+  pose proof (@mstep_inv st0 t (XStore v o) st1 HI Hs) as HI1.
+  destruct (@run_knows evs st1 st2 t (at_cnt (fst st0)) HI1 Hrun Hj Hk) as [Hj2 Hk2].
+  pose proof (@mrun_inv evs st1 st2 HI1 Hrun) as HI2.
+  apply (@CoWW_CoRW st2 t v' o' st3 (at_cnt (fst st0)) HI2 Hj2 Hk2 Hs3).
+Qed.
+
+
 (* ================================================================== *)
-(* 11. the UNREPAIRED machine (tr = false: the model's own atomic_load /
-       atomic_rmw): coherence is false                                  *)
+(* 11. the HISTORICAL rule (tr = false, apply_load_coherence before fix
+       c0421c4): coherence was false                                    *)
 
 Definition ok_step (tr : bool) (st : option mstate) (t : nat) (op : aop) : bool :=
   match st with Some s => is_some (mstep tr s t op) | None => false end.
@@ -1660,7 +1946,7 @@ Definition cex_pre : list (nat * aop) :=
   [(1, XStore 20 Relaxed); (1, XStore 30 Relaxed); (0, XStore 40 Relaxed)].
 Definition cex : list (nat * aop) := cex_pre ++ [(0, XLoad 1 Relaxed)].
 
-Lemma coherence_counterexample :
+Lemma coherence_counterexample_before_fix :
   lt_in (mrun0 false 2 cex_pre) 1 2 = true /\          (* 20 <mo 30 *)
   knows_b (mrun0 false 2 cex_pre) 1 2 = true /\        (* T1 knows 30 *)
   ok_step false (mrun0 false 2 cex_pre) 1 (XLoad 1 Relaxed) = false /\ (* T1 may not read 20 *)
@@ -1677,7 +1963,7 @@ Lemma coherence_counterexample_repaired :
 Proof. vm_compute. repeat split; reflexivity. Qed.
 
 (* CoRR: T2 READS 30 (slot 2) and later reads 20 (slot 1) *)
-Lemma corr_counterexample :
+Lemma corr_counterexample_before_fix :
   let pre := [(1, XStore 20 Relaxed); (1, XStore 30 Relaxed); (2, XLoad 2 Relaxed); (0, XStore 40 Relaxed)] in
   ok_step false (mrun0 false 3 pre) 2 (XLoad 1 Relaxed) = false /\
   ok_step false (mrun0 false 3 (pre ++ [(0, XLoad 1 Relaxed)])) 2 (XLoad 1 Relaxed) = true /\
@@ -1692,7 +1978,7 @@ Definition cex_ne : list (nat * aop) :=
    (3, XLoad 1 Relaxed); (3, XLoad 2 Relaxed);
    (0, XLoad 3 Relaxed); (0, XLoad 1 Relaxed); (2, XLoad 2 Relaxed)].
 
-Lemma assert_ne_counterexample :
+Lemma assert_ne_counterexample_before_fix :
   is_some (mrun0 false 4 cex_ne) = true /\
   cands false (mrun0 false 4 cex_ne) 0 Relaxed = None /\
   rcands (mrun0 false 4 cex_ne) = None /\
@@ -1706,7 +1992,7 @@ Definition cex_rmw : list (nat * aop) :=
   [(1, XStore 10 Relaxed); (2, XStore 20 Relaxed); (2, XRmw 2 inc1 Relaxed Relaxed);
    (3, XLoad 1 Relaxed); (3, XLoad 2 Relaxed)].
 
-Lemma rmw_counterexample :
+Lemma rmw_counterexample_before_fix :
   rcands (mrun0 false 4 (firstn 3 cex_rmw)) = Some [1; 3] /\
   rcands (mrun0 false 4 cex_rmw) = Some [2; 3] /\
   ok_step false (mrun0 false 4 cex_rmw) 3 (XRmw 2 inc1 Relaxed Relaxed) = true /\
@@ -1716,7 +2002,7 @@ Proof. vm_compute. repeat split; reflexivity. Qed.
 (* ---- sanity search: all sequences of stores, loads and RMWs of 4 threads,
    2 steps after the prefix; the unrepaired machine loses an edge, the
    repaired one keeps all edges and never has two equal live clocks ---- *)
-Example search_unrepaired : search0 false 4 pre3 2 = Some [(0, 0, 0); (0, 1, 2)].
+Example search_before_fix : search0 false 4 pre3 2 = Some [(0, 0, 0); (0, 1, 2)].
 Proof. vm_compute. reflexivity. Qed.
 Example search_repaired : search0 true 4 pre3 2 = None.
 Proof. vm_compute. reflexivity. Qed.
@@ -1731,7 +2017,7 @@ Example stale_read_example :
   knows_b (mrun0 true 3 evs) 2 1 = true /\ knows_b (mrun0 true 3 evs) 0 1 = false.
 Proof. vm_compute. repeat split; reflexivity. Qed.
 
-(* remaining gap (both machines): loads can place a store mo-between an RMW's
+(* remaining gap (the model, tr = true; also the historical rule): loads can place a store mo-between an RMW's
    source and the RMW's write.  Slots: 1 = 10 (T1), 2 = 20 (T2), 3 = 21 (T2's
    fetch_add of 20).  T3 reads 20 then 10 (20 <mo 10); T0 reads 10 then 21
    (10 <mo 21). *)
@@ -1754,10 +2040,20 @@ Print Assumptions CoRR_CoWR.
 Print Assumptions CoRR_CoWR_rmw.
 Print Assumptions CoWW_CoRW.
 Print Assumptions store_knows.
+Print Assumptions load_knows.
+Print Assumptions reach_inv2.
+Print Assumptions CoRR_same_thread.
+Print Assumptions CoWR_same_thread.
+Print Assumptions CoRW_same_thread.
+Print Assumptions CoWW_same_thread.
 Print Assumptions sync_knows.
-Print Assumptions coherence_counterexample.
+Print Assumptions coherence_counterexample_before_fix.
 Print Assumptions coherence_counterexample_repaired.
-Print Assumptions corr_counterexample.
-Print Assumptions assert_ne_counterexample.
-Print Assumptions rmw_counterexample.
+Print Assumptions corr_counterexample_before_fix.
+Print Assumptions assert_ne_counterexample_before_fix.
+Print Assumptions rmw_counterexample_before_fix.
 Print Assumptions stale_read_example.
+Print Assumptions rmw_gap_example.
+Print Assumptions mrun_inv.
+Print Assumptions atomic_load_g_true.
+Print Assumptions atomic_rmw_g_true.
